@@ -500,7 +500,28 @@ func (w *World) ApplyX(e XEvent) bool {
 		}
 		return false
 	case "Adv":
-		w.Apply(EnvEvent{Kind: "adv", D: e.D})
+		// discrete-event semantics: the clock stops at every deadline on the way (a timer or sleeper that is due runs
+		// at its own deadline, with everything it triggers, before time moves on)
+		remaining := e.D
+		w.log(Event{Kind: EvEnv, Detail: EnvEvent{Kind: "adv", D: e.D}.String()})
+		for guard := 0; remaining > 0; guard++ {
+			if guard > 1000 {
+				return false
+			}
+			nd, ok := w.S.NextDeadline()
+			if !ok || nd > remaining {
+				w.S.Advance(remaining)
+				break
+			}
+			if nd <= 0 {
+				nd = 0
+			}
+			w.S.Advance(nd)
+			remaining -= nd
+			if !w.Quiesce() {
+				return false
+			}
+		}
 	default:
 		panic("unknown X event " + e.Kind)
 	}
